@@ -57,6 +57,14 @@ func (_this *Reader) SetReader(reader io.Reader) {
 	_this.bytesRead = 0
 }
 
+// Read implements io.Reader on top of the current source so that the bytes
+// consumed by the external field decoders count toward the document size too.
+func (_this *Reader) Read(p []byte) (n int, err error) {
+	n, err = _this.reader.Read(p)
+	_this.markBytesRead(n)
+	return
+}
+
 func (_this *Reader) ReadUint8() uint8 {
 	if _, err := _this.reader.Read(_this.buffer[:1]); err != nil {
 		_this.unexpectedError(err)
@@ -145,7 +153,7 @@ func (_this *Reader) ReadFloat64() float64 {
 }
 
 func (_this *Reader) ReadDecimalFloat() (compact_float.DFloat, *apd.Decimal) {
-	value, bigValue, _, err := compact_float.DecodeWithByteBuffer(_this.reader, _this.buffer)
+	value, bigValue, _, err := compact_float.DecodeWithByteBuffer(_this, _this.buffer)
 	if err != nil {
 		_this.unexpectedError(err)
 	}
@@ -154,7 +162,7 @@ func (_this *Reader) ReadDecimalFloat() (compact_float.DFloat, *apd.Decimal) {
 }
 
 func (_this *Reader) ReadDate() compact_time.Time {
-	value, _, err := compact_time.DecodeDateWithBuffer(_this.reader, _this.buffer)
+	value, _, err := compact_time.DecodeDateWithBuffer(_this, _this.buffer)
 	if err != nil {
 		_this.unexpectedError(err)
 	}
@@ -163,7 +171,7 @@ func (_this *Reader) ReadDate() compact_time.Time {
 }
 
 func (_this *Reader) ReadTime() compact_time.Time {
-	value, _, err := compact_time.DecodeTimeWithBuffer(_this.reader, _this.buffer)
+	value, _, err := compact_time.DecodeTimeWithBuffer(_this, _this.buffer)
 	if err != nil {
 		_this.unexpectedError(err)
 	}
@@ -172,7 +180,7 @@ func (_this *Reader) ReadTime() compact_time.Time {
 }
 
 func (_this *Reader) ReadTimestamp() compact_time.Time {
-	value, _, err := compact_time.DecodeTimestampWithBuffer(_this.reader, _this.buffer)
+	value, _, err := compact_time.DecodeTimestampWithBuffer(_this, _this.buffer)
 	if err != nil {
 		_this.unexpectedError(err)
 	}
@@ -215,7 +223,7 @@ func (_this *Reader) markBytesRead(byteCount int) {
 }
 
 func (_this *Reader) readSmallULEB128(name string, maxValue uint64) uint64 {
-	asUint, asBig, _, err := uleb128.DecodeWithByteBuffer(_this.reader, _this.buffer)
+	asUint, asBig, _, err := uleb128.DecodeWithByteBuffer(_this, _this.buffer)
 	if err != nil {
 		_this.unexpectedError(err)
 	}
